@@ -15,7 +15,7 @@ BaseSp == [ds |-> DS, de |-> DE, tl |-> TL, rm |-> RM]
 CliOp(inp, outp, mode, js) ==
   [op |-> "cli", input |-> inp, output |-> outp, mode |-> mode, json |-> js, targets_via |-> "flags", current |-> "given",
    conf_final_newline |-> TRUE, tz |-> "UTC", lang |-> "", now_zone_min |-> 0, file_targets |-> <<>>, flag_targets |-> TARGETS,
-   omit |-> <<>>, argform |-> CliPhase]
+   omit |-> <<>>, argform |-> CliPhase, odd |-> ""]
 CliOps == IF CliPhase = "" THEN <<>>
           ELSE <<CliOp("file", "stdout", "clean", FALSE), CliOp("stdin", "file", "list", TRUE), CliOp("stdin", "stdout", "clean", FALSE)>>
 
